@@ -888,7 +888,9 @@ def runSection (r : Report) (s : Section) : Report :=
   match (kv? s.cfg "n").bind (·.toNat?) with
   | none => r.mismatch s.idx 0 "cfg n=<nat>" (joinSp s.cfg)
   | some n =>
-    if n = 0 then r.mismatch s.idx 0 "n >= 1" (joinSp s.cfg)
+    -- capacity 0 (outside the property's quantifier, inside the model: `zero_capacity_admits_nothing`): only for the
+    -- kinds whose constructor accepts it as a limiter that admits nothing
+    if n = 0 ∧ !(kind = "limit" ∨ kind = "tlimit" ∨ kind = "runner") then r.mismatch s.idx 0 "n >= 1" (joinSp s.cfg)
     else if kind = "pool" then
       if mode = "seq" then runPoolSeq r s n (kvNat s.cfg "maxage" 0)
       else if mode = "conc" then runPoolConc r s n
@@ -900,6 +902,7 @@ def runSection (r : Report) (s : Section) : Report :=
           let r := r.addCover (if k < 1 then s!"{kind}-withworkers-floored-to-min" else s!"{kind}-withworkers-as-given")
           if effWorkers k = (n : Int) then r else r.mismatch s.idx 0 s!"n={effWorkers k} for WithWorkers({k})" s!"n={n}"
         | none => r
+      let r := if n = 0 then r.addCover s!"{kind}-capacity-zero-admits-nothing" else r
       if mode = "seq" then runSeq r s kind n
       else if mode = "conc" then runConc r s kind n
       else r.mismatch s.idx 0 "mode" mode
